@@ -36,6 +36,7 @@ import (
 //   prune.store  <mint> <maxt> <matchers> <dbg> <client>            -> ok|time|local|addr|extlabels|filter   storeMatches (hook)
 //   prune.ext    <matchers> <labels>                                -> nomatch | ok <kept>   matchesExternalLabels (hook)
 //   o.prune.e2e  … real TSDB stores behind the proxy, see c05e2e.go (oracle only)
+//   prune.sel / o.prune.e2esel … the same with a TSDB selector, see c05sel.go
 //   prune.series <mint> <maxt> <matchers> <sel> <abort> <dbg> <clients>
 //                 -> none | invalid | unavailable | ok <queried idx,…> <matchers forwarded>  ProxyStore.Series with recording clients
 // oracle (independent of the model, uses the real prometheus matchers and labelpb.ExtendSortedLabels):
@@ -311,6 +312,10 @@ func execC05(c *hlib.Ctx, tok []string) string {
 	switch tok[0] {
 	case "o.prune.e2e":
 		return execPruneE2E(c, tok)
+	case "o.prune.e2esel":
+		return execPruneE2ESel(c, tok)
+	case "prune.sel":
+		return execPruneSel(c, tok)
 	case "prune.lsm":
 		if len(tok) != 3 {
 			return "bad-op"
@@ -710,6 +715,19 @@ func genC05(c *hlib.Ctx) {
 		}
 		ans = c.Do(fmt.Sprintf("prune.series %d %d %s %s %s %s %s", qmint, qmaxt, mtok, showLabelSet(sel), abort, dbg, hlib.Join(ctoks, "|")), true)
 		c.Count("series:" + strings.Fields(ans)[0])
+	}
+	// TSDB selector: recording clients (compared with the model) and real multi-TSDB stores (oracle only)
+	nsel := c.N(1500, 40000)
+	for i := 0; i < nsel; i++ {
+		ans := c.Do(genPruneSel(c), true)
+		c.Count("sel:" + strings.Fields(ans)[0])
+	}
+	nes := c.N(30, 400)
+	for i := 0; i < nes; i++ {
+		ans := c.Do(genPruneE2ESel(c), true)
+		if strings.HasPrefix(ans, "err") {
+			c.Count("e2esel:" + ans)
+		}
 	}
 	// end to end on real TSDB stores (oracle only)
 	ne := c.N(80, 800)
